@@ -275,6 +275,39 @@ func runLifeScenario(sc *lifeScenario, schedule []lifeStep, seed int64) *lifeRun
 				time.Sleep(5 * time.Millisecond)
 			}
 		}
+		if started && !stopped && !cancelled && !run.Hang && pend == 0 {
+			// started and never stopped: the system must simply be up - its tree alive, its scheduler delivering
+			stopCalled := false
+			for _, e := range run.Events {
+				if e["e"] == "Ret" && e["op"] == "stop" && e["r"] != "not-started" {
+					stopCalled = true
+				}
+			}
+			if !stopCalled {
+				fired := make(chan struct{}, 1)
+				if _, err := sys.ActorOf(vivid.ActorFN(func(actx vivid.ActorContext) {
+					switch actx.Message().(type) {
+					case *vivid.OnLaunch:
+						_ = actx.Scheduler().Once(actx.Ref(), 20*time.Millisecond, "tick")
+					case string:
+						select {
+						case fired <- struct{}{}:
+						default:
+						}
+					}
+				})); err == nil {
+					got := 0
+					select {
+					case <-fired:
+						got = 1
+					case <-time.After(1500 * time.Millisecond):
+					}
+					ev(map[string]any{"e": "Up", "alive": len(sys.VerifLiveActors()), "gor": got})
+				} else {
+					ev(map[string]any{"e": "Up", "alive": 0, "gor": 0})
+				}
+			}
+		}
 		ev(map[string]any{"e": "Final", "alive": alive, "gor": gor, "pend": pend})
 		// clean-up outside the trace
 		c.FreeRun()
@@ -369,7 +402,7 @@ func checkC07(c *core.Ctx) {
 		return
 	}
 	v := lifeModelVariant
-	fams := []string{"A", "B", "C", "D", "E"}
+	fams := []string{"A", "B", "C", "D", "E", "F", "G"}
 	if os_skipMC() {
 		fams = fams[:0]
 	}
@@ -384,7 +417,7 @@ func checkC07(c *core.Ctx) {
 	}
 	var traces []*Trace
 	distinct := map[string]bool{}
-	genFams := []string{"A", "B", "C", "D", "E"}
+	genFams := []string{"A", "B", "C", "D", "E", "F", "G"}
 	if only := os.Getenv("VERIF_ONLY_FAM"); only != "" {
 		genFams = strings.Split(only, ",")
 	}
